@@ -52,9 +52,7 @@ theorem restore_exact (s s' : Store) (gid name : Nat) (p : Snap)
       simp only [hpg, Option.some.injEq] at hr
       subst hr
       refine ⟨?_, relays_after p _ _, ?_, ?_⟩
-      · simp only [findGroup]
-        rw [List.find?_append, find_filter_ne_self]
-        simp [hgg]
+      · simp only [findGroup]; rw [← hgg]; exact find_replaceGroup_self g _
       · simp only [groupSecrets]; exact rows_restore_self _ _ _
       · simp only [groupMls]; exact rows_restore_self _ _ _
   | sql =>
@@ -117,10 +115,7 @@ theorem restore_frame (s s' : Store) (gid name : Nat) (p : Snap)
       refine ⟨?_, rfl, rfl, rfl, rfl, rfl⟩
       intro k hk
       refine ⟨?_, hrel k hk, ?_, ?_⟩
-      · simp only [findGroup]
-        rw [List.find?_append, find_filter_ne_other _ _ _ hk]
-        have : (g.gid == k) = false := by simp; omega
-        cases hfk : s.groups.find? (·.gid == k) <;> simp [this]
+      · simp only [findGroup]; exact find_replaceGroup_ne g _ k (by omega)
       · simp only [groupSecrets]; rw [rows_restore_ne _ _ _ _ hk]
       · simp only [groupMls]; rw [rows_restore_ne _ _ _ _ hk]
   | sql =>
